@@ -100,6 +100,7 @@ fn main() {
     let coll = match a.family.as_str() {
         "ty" => fam_builtin::run_ty(&a),
         "raw" => fam_builtin::run_raw(&a),
+        "chars" => fam_builtin::run_chars(&a),
         "varint" => fam_varint::run(&a),
         "sink" => fam_sink::run(&a),
         "altform" => fam_altform::run(&a),
